@@ -46,6 +46,7 @@ type Violation struct {
 	Choices   map[string]int    `json:"choices"`
 	Decisions []Decision        `json:"decisions"`
 	Site      string            `json:"site,omitempty"`
+	Blocked   []string          `json:"blocked_threads,omitempty"`
 }
 
 type nondetRec struct {
@@ -119,6 +120,7 @@ type Run struct {
 	cuts        []string
 
 	randPinned int64
+	horizon    bool
 	bgCtx     *ctxObj
 	ctxSeq    int
 	ctxs      []*ctxObj
@@ -383,8 +385,18 @@ func (r *Run) violation(assert, msg string, model map[string]uint64) {
 	if r.cur != nil {
 		site = r.cur.site()
 	}
+	var blocked []string
+	for _, th := range r.threads {
+		if th.state == tBlocked && th != r.cur {
+			w := th.name + ": " + th.what
+			if th.top != nil && th.top.curInstr != nil {
+				w += " at " + r.e.P.pos(th.top.curInstr.Pos()) + " in " + th.top.fn.String()
+			}
+			blocked = append(blocked, w)
+		}
+	}
 	r.violations = append(r.violations, Violation{
-		Harness: r.harness, Assert: assert, Msg: msg,
+		Harness: r.harness, Assert: assert, Msg: msg, Blocked: blocked,
 		Events:    append([]string{}, r.events...),
 		Nondets:   model,
 		Choices:   ch,
